@@ -38,7 +38,7 @@ ASSUMPTIONS = [
     "pandas.read_csv returns the written double exactly iff float_precision='round_trip'; the default C parser may be off by one ulp (pandas documentation; reproduced in the replay on real doubles)",
     "the SQLite back-end stores arrays through np.save/np.load (binary): its round trip is executed concretely on the solver's models, not encoded",
 ]
-OUTSIDE = ["exactness of repr/float(), gzip, HDF5 and pickle themselves", "histories above 4 rows x 2 parameters"]
+OUTSIDE = ["exactness of repr/float(), gzip, HDF5 and pickle themselves", "NaN payload bits (NaN must come back as NaN, +-inf as the same infinity)", "histories above 4 rows x 2 parameters"]
 REQUIRED_LABELS = ["restore_equals_saved", "calibrate_leaves_checkpoint_of_live_state"]
 
 
@@ -50,8 +50,8 @@ def bounds(tier):
 FOLDER = "/memfs/ckpt"
 
 
-def case_roundtrip(P, E, loss):
-    name = f"roundtrip-P{P}-E{E}-{loss}"
+def case_roundtrip(P, E, loss, special=False):
+    name = f"roundtrip-P{P}-E{E}-{loss}" + ("-nan-inf" if special else "")
 
     def body(ctx):
         prestate = ctx.int("prestate", 0, 2)
@@ -63,6 +63,12 @@ def case_roundtrip(P, E, loss):
             c.current_batch_index = 2
         rows = 4
         symbolise_history(ctx, c, "h", rows=rows)
+        if special:
+            # IEEE special values are legal losses / series values (a diverging model): kept concrete next to the symbolic cells
+            c.losses_samp[1] = float("nan")
+            c.losses_samp[2] = float("inf")
+            c.series_samp[0, 0, 0, 0] = float("nan")
+            c.series_samp[3, 0, 1, 0] = float("-inf")
         fs = MemFS()
         with fs_world(fs), warnings.catch_warnings():
             warnings.simplefilter("ignore")
@@ -102,7 +108,7 @@ def case_roundtrip(P, E, loss):
 
     def replay(cex):
         v = cex.values
-        return replay_roundtrip(P, E, loss, int(v.get("prestate") or 0), int(v.get("scheduler_kind") or 0), int(v.get("other_rows") or 0), v)
+        return replay_roundtrip(P, E, loss, int(v.get("prestate") or 0), int(v.get("scheduler_kind") or 0), int(v.get("other_rows") or 0), v, special)
 
     return Case(name, body, replay, time_budget=300)
 
@@ -123,7 +129,7 @@ def _hard_doubles(n, seed=3):
     return rng.random(n) * 10.0 ** rng.integers(-3, 3, size=n)
 
 
-def replay_roundtrip(P, E, loss, ps, sk, rprime_i, v):
+def replay_roundtrip(P, E, loss, ps, sk, rprime_i, v, special=False):
     """Real files in a temporary folder; JSON back-end through the Calibrator API, SQLite back-end through its save/load."""
     rows = 4
     msgs = []
@@ -150,6 +156,9 @@ def replay_roundtrip(P, E, loss, ps, sk, rprime_i, v):
                 c.batch_num_samp = np.arange(rows) // 2
                 c.method_samp = np.arange(rows) % 2
                 c.n_sampled_params = rows
+                if special:
+                    c.losses_samp[1], c.losses_samp[2] = np.nan, np.inf
+                    c.series_samp[0, 0, 0, 0], c.series_samp[3, 0, 1, 0] = np.nan, -np.inf
                 if ps == 1:
                     full = (c.params_samp, c.losses_samp, c.series_samp, c.batch_num_samp, c.method_samp, c.n_sampled_params, c.current_batch_index)
                     c.params_samp, c.losses_samp, c.series_samp = full[0][:2], full[1][:2], full[2][:2]
@@ -178,8 +187,8 @@ def replay_roundtrip(P, E, loss, ps, sk, rprime_i, v):
                     a, b = np.asarray(saved[k], dtype=float), np.asarray(restored[k], dtype=float)
                     if a.shape != b.shape:
                         msgs.append(f"{k}: shape {a.shape} saved, {b.shape} restored")
-                    elif not np.array_equal(a, b):
-                        i = np.argwhere(a != b)[0]
+                    elif not np.array_equal(a, b, equal_nan=True):
+                        i = np.argwhere(~((a == b) | (np.isnan(a) & np.isnan(b))))[0]
                         msgs.append(f"{k}{tuple(i)}: saved {a[tuple(i)]!r}, restored {b[tuple(i)]!r}")
                 for k in PLAIN:
                     if not (restored[k] == saved[k] and type(restored[k]) is type(saved[k])):
@@ -194,7 +203,7 @@ def replay_roundtrip(P, E, loss, ps, sk, rprime_i, v):
                         sq.save_calibrator_state(tmp2, *args)
                         back = sq.load_calibrator_state(tmp2)
                         for i, nm in [(0, "bounds"), (1, "precision"), (2, "real_data"), (15, "params_samp"), (16, "losses_samp"), (17, "series_samp"), (18, "batch_num_samp"), (19, "method_samp")]:
-                            if not np.array_equal(np.asarray(back[i]), np.asarray(args[i])):
+                            if not np.array_equal(np.asarray(back[i]), np.asarray(args[i]), equal_nan=(np.asarray(args[i]).dtype.kind == 'f')):
                                 msgs.append(f"sqlite back-end: {nm} differs after the round trip")
                         if back[14] != c.current_batch_index or back[10] != _plainstate(args[10]):
                             msgs.append("sqlite back-end: counters / generator state differ")
@@ -271,7 +280,7 @@ REGIONS = {"stale-hdf5-rows-of-other-run": ("restore_equals_saved", _region_othe
 
 
 def cases(tier, seed):
-    cs = [case_roundtrip(1, 1, "mink"), case_roundtrip(2, 2, "mink"), case_after_calibrate(None, 3), case_after_calibrate(None, 2)]
+    cs = [case_roundtrip(1, 1, "mink"), case_roundtrip(2, 2, "mink"), case_roundtrip(1, 1, "mink", special=True), case_after_calibrate(None, 3), case_after_calibrate(None, 2)]
     if tier == "thorough":
         cs += [case_roundtrip(2, 1, "msm"), case_roundtrip(1, 2, "msm"), case_roundtrip(3, 1, "mink"), case_roundtrip(2, 3, "mink"),
                case_after_calibrate(0, 4), case_after_calibrate(1, 5), case_after_calibrate(None, 6), case_after_calibrate(3, 6)]
